@@ -104,6 +104,11 @@ SPEC += [
     ('range|(Integral, Integral)|ka.functions.<lambda:register_function(lambda lo, hi: Array(list(range(lo, hi+1))), \\"range\\", (Integral, Integral), \\"Returns an array of the i>',
      ".range", "lambda_range_agree rec _ _ (hP _ _ rfl)",
      "fun args => ∀ lo hi : Int, args = [.num (.int lo), .num (.int hi)] → (hi + 1 - lo).toNat ≤ maxRange"),
+    # a `while` loop: the translated side runs it with the round bound `pyLoopFuel`, the hand-written side with the model's own
+    # bounds; the side condition (it mentions the dispatcher: 6th field "rec") says that neither answers with its bound
+    ("range|(Number, Number, Number)|ka.functions.ka_range", ".kaRange", "ka_range_agree h pyLoopFuel _ _ _ hP.1 hP.2",
+     "fun rec args => arity3 (ka_range pyLoopFuel) rec args ≠ .error .fuel ∧\n"
+     "      BodyCode.run .kaRange rec args ≠ .error (.unmodelled \"huge range\")", "NumDisp", "rec"),
 ]
 
 # the quantity-operator closures of register_quantities_op: f (Quantity, Quantity), left_is_number, right_is_number
@@ -191,15 +196,17 @@ open KaVerif.Eval KaVerif.PyRt KaVerif.Bodies KaVerif.Gen.Bodies
 
 /-- The body translated from the Python source that is registered under the implementation descriptor `desc` and the
     hand-written model body under the same descriptor agree on every argument list the registered signature admits. -/
-def Bodies.AgreesUnder (H : Disp → Prop) (desc : String) (P : List Val → Prop) : Prop :=
+def Bodies.AgreesUnder (H : Disp → Prop) (desc : String) (P : Disp → List Val → Prop) : Prop :=
   ∃ (g : Body) (code : BodyCode) (sh : List Shape) (va : Option Shape),
     Gen.Bodies.bodiesTable.lookup desc = some g ∧ implTable.lookup desc = some code ∧
     Gen.Bodies.bodiesShapes.lookup desc = some (sh, va) ∧
-    ∀ rec : Disp, H rec → ∀ args : List Val, wellTyped sh va args = true → P args → g rec args = code.run rec args
+    ∀ rec : Disp, H rec → ∀ args : List Val, wellTyped sh va args = true → P rec args → g rec args = code.run rec args
 
 /-- … for every dispatcher that answers the bodies' calls on plain numbers with a number or an error (`NumDisp`), on the
-    well-typed argument lists that satisfy the side condition `P` (a size bound of the model, where there is one) -/
-def Bodies.AgreesOn (desc : String) (P : List Val → Prop) : Prop := Bodies.AgreesUnder NumDisp desc P
+    well-typed argument lists that satisfy the side condition `P` (a size bound of the model, where there is one).
+    (The side condition of `AgreesUnder` may mention the dispatcher — needed for the one body with a `while` loop, `ka_range`,
+    whose number of rounds depends on what `dispatch("+")` returns; everywhere else it is a condition on the arguments.) -/
+def Bodies.AgreesOn (desc : String) (P : List Val → Prop) : Prop := Bodies.AgreesUnder NumDisp desc (fun _ => P)
 
 /-- agreement on every well-typed argument list (no side condition) -/
 def Bodies.Agrees (desc : String) : Prop := Bodies.AgreesOn desc (fun _ => True)
@@ -209,9 +216,9 @@ theorem Bodies.bodiesTable_nodup : (Gen.Bodies.bodiesTable.map (·.1)).Nodup := 
 theorem Bodies.bodiesShapes_nodup : (Gen.Bodies.bodiesShapes.map (·.1)).Nodup := by simp [Gen.Bodies.bodiesShapes]
 theorem Bodies.implTable_nodup : (implTable.map (·.1)).Nodup := by simp [implTable]
 
-theorem Bodies.agrees_intro {H : Disp → Prop} {desc : String} {P : List Val → Prop} (g : Body) (code : BodyCode) (sh : List Shape) (va : Option Shape)
+theorem Bodies.agrees_intro {H : Disp → Prop} {desc : String} {P : Disp → List Val → Prop} (g : Body) (code : BodyCode) (sh : List Shape) (va : Option Shape)
     (h1 : (desc, g) ∈ Gen.Bodies.bodiesTable) (h2 : (desc, code) ∈ implTable) (h3 : (desc, sh, va) ∈ Gen.Bodies.bodiesShapes)
-    (h4 : ∀ rec : Disp, H rec → ∀ args : List Val, wellTyped sh va args = true → P args → g rec args = code.run rec args) :
+    (h4 : ∀ rec : Disp, H rec → ∀ args : List Val, wellTyped sh va args = true → P rec args → g rec args = code.run rec args) :
     Bodies.AgreesUnder H desc P :=
   ⟨g, code, sh, va, lookup_of_mem_nodup _ _ _ Bodies.bodiesTable_nodup h1, lookup_of_mem_nodup _ _ _ Bodies.implTable_nodup h2,
    lookup_of_mem_nodup _ _ _ Bodies.bodiesShapes_nodup h3, h4⟩
@@ -233,6 +240,7 @@ for ent in SPEC:
     desc, code, proof = ent[:3]
     side = ent[3] if len(ent) > 3 else None
     hyp = ent[4] if len(ent) > 4 else None
+    recside = len(ent) > 5 and ent[5] == "rec"      # the side condition is a function of the dispatcher and the arguments
     SIDE[desc] = side
     if desc not in BODIES:
         sys.exit("mkbodiesprops: %s is not in Gen/Bodies.bodiesTable" % desc)
@@ -246,8 +254,13 @@ for ent in SPEC:
     names.append(tn)
     if hyp == "NumSem":
         SEMNAMES.add(tn)
-    if hyp is not None:
-        L.append("theorem %s : Bodies.AgreesUnder %s \"%s\"\n    (%s) := by" % (tn, hyp, desc, side or "fun _ => True"))
+    if recside:
+        L.append("/-- a body with a `while` loop: agreement unless one of the two sides stops at its own round / size bound (the\n"
+                 "    translated loop at `pyLoopFuel`: `.fuel`; the hand-written model at `maxRange`: `unmodelled \"huge range\"`) — the\n"
+                 "    side condition mentions the dispatcher because the number of rounds depends on what `dispatch` returns -/")
+        L.append("theorem %s : Bodies.AgreesUnder %s \"%s\"\n    (%s) := by" % (tn, hyp, desc, side))
+    elif hyp is not None:
+        L.append("theorem %s : Bodies.AgreesUnder %s \"%s\"\n    (fun _ => %s) := by" % (tn, hyp, desc, side or "fun _ => True"))
     elif side is None:
         L.append("theorem %s : Bodies.Agrees \"%s\" := by" % (tn, desc))
     else:
@@ -284,4 +297,6 @@ if os.path.exists(TAIL):
 L.append("end KaVerif\n")
 open(OUT, "w", encoding="utf-8").write("\n".join(L))
 print("mkbodiesprops: %d theorems -> %s" % (len(names), OUT))
-open(os.path.join(V, "tools", "bodies_theorems.txt"), "w").write("\n".join("KaVerif." + n for n in names) + "\n")
+# theorems of the tail that are audited with the agreement theorems (harness/pipeline.py bodies_theorems())
+EXTRA = ["BODIES_evalG_instance"]
+open(os.path.join(V, "tools", "bodies_theorems.txt"), "w").write("\n".join("KaVerif." + n for n in names + EXTRA) + "\n")
